@@ -463,6 +463,52 @@ func init() {
 		Post: heldPost,
 	})
 	eng.Register(&eng.Scenario{
+		Name: "cc-equal-empty", Props: []string{"C15"}, ObsNames: stdObs,
+		Doc:   "CContainer with custom equality (x == y mod 2) holding 1: a WaitValueEmpty waiter and a WaitValue waiter; writers SetValue(2) (empty under the cell's equality), Swap(->3), Swap(->4): whatever the cell finally holds, a waiter whose condition it satisfies under the cell's equality may not stay parked",
+		Quick: eng.Bounds{PB: 2}, Thorough: eng.Bounds{PB: 3},
+		Body: func() {
+			c := ccontainer.NewCContainerWithEqual[int](1, mod2)
+			vsched.Observe(oVal, 1, 0, 0)
+			T("W1", func() { ccWait(c, 1, wEmpty, 0, mod2, bg, nil) })
+			T("A", func() { vsched.Observe(oOp, 2, 0, 0); c.SetValue(2) })
+			if vsched.Choose(2) == 1 {
+				T("B", func() {
+					c.SwapValue(func(v int) int { vsched.Observe(oVal, 3, 0, 0); return 3 })
+					c.SwapValue(func(v int) int { vsched.Observe(oVal, 4, 0, 0); return 4 })
+				})
+			}
+			finalWaiters(c, mod2, map[int]int{})
+		},
+	})
+	eng.Register(&eng.Scenario{
+		Name: "cc-watchchanges", Props: []string{"C15"}, ObsNames: stdObs,
+		Doc:   "ccontainer.WatchChanges (built on WaitValueChange) with a callback that takes a step, while a writer sets 1 then 2 (possibly while the callback runs): the watcher never stays blocked while the cell differs from the value it reported last",
+		Quick: eng.Bounds{PB: 3}, Thorough: eng.Bounds{PB: 4},
+		Body: func() {
+			const cLast = 40
+			c := ccontainer.NewCContainer[int](0)
+			ctx, cancel := context.WithCancel(bg)
+			T("W", func() {
+				label("WatchChanges")
+				ccontainer.WatchChanges[int](ctx, 0, c, func(v int) error {
+					vsched.CtrSet(cLast, int64(v))
+					vsched.Observe(oCb, int64(v), 0, 0)
+					vsched.Point()
+					return nil
+				}, nil)
+				label("")
+			})
+			T("A", func() { c.SetValue(1); c.SetValue(2) })
+			vsched.Settle()
+			if v := c.GetValue(); vsched.CountParked("WatchChanges") > 0 && int64(v) != vsched.Ctr(cLast) {
+				fail("C15.waiter-stuck", "WatchChanges is blocked although the cell holds %d and the value it reported last is %d", v, vsched.Ctr(cLast))
+			}
+			vsched.CtrSet(c15Cancel, 1)
+			cancel()
+			vsched.Settle()
+		},
+	})
+	eng.Register(&eng.Scenario{
 		Name: "cc-errch", Props: []string{"C15"}, ObsNames: stdObs,
 		Doc:   "CContainer: WaitValue with a cancellable context and an error channel; a sender delivers {error, nil, close} (choice), a canceller cancels, a writer may set the value; the returned error must come from a source that fired",
 		Quick: eng.Bounds{PB: 2}, Thorough: eng.Bounds{PB: 3},
